@@ -82,11 +82,15 @@ def one_case(ctx, index, rng: random.Random):
     chain = []
     cur = h
     steps = rng.randint(1, 4)
+    # narrow integer contents: keep products (errors2 x c*c) inside the type - overflow produced by numpy itself is outside the statement
+    narrow = {"int16": [2, 0.5, 1.5, np.float32(0.5), np.int16(2), np.float64(0.75)], "int32": [2, 3, 0.5, 10, 1.5, np.int32(2), np.float32(0.5), 7]}.get(s0["dtype"])
+    if narrow is not None:
+        steps = 1 if s0["dtype"] == "int16" else min(steps, 2)
     try:
         with warnings.catch_warnings():
             warnings.simplefilter("ignore")
             for _ in range(steps):
-                c = rng.choice(FACTORS)
+                c = rng.choice(narrow if narrow is not None else FACTORS)
                 form = rng.choice(["mul", "rmul", "div", "imul", "idiv"])
                 chain.append((form, repr(c)))
                 if form == "mul":
@@ -107,7 +111,7 @@ def one_case(ctx, index, rng: random.Random):
                  detail={"error": str(e)[:200], "chain": chain, "dtype": s0["dtype"]})
     # identities
     rec.mon("C06.identities")
-    c = rng.choice([2, 3, 0.5, 4.0, np.float64(1.5), np.int64(5), 0.1, 7])
+    c = rng.choice([2, 3, 0.5, 4.0, np.float64(1.5), np.int64(5), 0.1, 7]) if s0["dtype"] != "int16" else rng.choice([2, 0.5, 1.5])
     with warnings.catch_warnings():
         warnings.simplefilter("ignore")
         try:
